@@ -337,3 +337,48 @@ func init() {
 	mut("C15", "(benign) Cmp written as a switch", false, "",
 		Edit{cur, "\tif c == v {\n\t\treturn 0\n\t} else if c.Hi < v.Hi || (c.Hi == v.Hi && c.Lo < v.Lo) {\n\t\treturn -1\n\t} else {\n\t\treturn 1\n\t}", "\tswitch {\n\tcase c.Hi != v.Hi:\n\t\tif c.Hi < v.Hi {\n\t\t\treturn -1\n\t\t}\n\t\treturn 1\n\tcase c.Lo < v.Lo:\n\t\treturn -1\n\tcase c.Lo > v.Lo:\n\t\treturn 1\n\t}\n\treturn 0"})
 }
+
+func init() {
+	// ---- C16 ----
+	m2, m4, bl := "rhp/v2/merkle.go", "rhp/v4/merkle.go", "blake2b/blake2b.go"
+	mut("C16", "VerifySectorRangeProof stops checking the proof length", true, "verifier-guard|range:proof-length",
+		Edit{m2, "\tif uint64(len(proof)) != RangeProofSize(numRoots, start, end) {\n\t\treturn false\n\t}\n\n\tvar acc proofAccumulator\n\tinsertRange", "\tvar acc proofAccumulator\n\tinsertRange"})
+	mut("C16", "VerifySectorRangeProof accepts longer proofs", true, "verifier-guard|range:proof-length",
+		Edit{m2, "\tif uint64(len(proof)) != RangeProofSize(numRoots, start, end) {\n\t\treturn false\n\t}\n\n\tvar acc proofAccumulator\n\tinsertRange", "\tif uint64(len(proof)) < RangeProofSize(numRoots, start, end) {\n\t\treturn false\n\t}\n\n\tvar acc proofAccumulator\n\tinsertRange"})
+	mut("C16", "VerifyAppendProof does not check the old root", true, "verifier-guard|append:old-root",
+		Edit{m2, "\tif acc.root() != oldRoot {\n\t\treturn false\n\t}\n\tacc.insertNode(sectorRoot, 0)", "\tacc.insertNode(sectorRoot, 0)"})
+	mut("C16", "VerifyDiffProof ignores left-over tree hashes", true, "verifier-guard|diff:no-leftover",
+		Edit{m2, "return acc.root() == root && len(treeHashes) == 0", "return acc.root() == root"})
+	mut("C16", "VerifyDiffProof verifies the new root against the old one", true, "verifier-guard|diff:new-root",
+		Edit{m2, "return verifyMulti(newProofIndices, treeHashes, newLeafHashes, numLeaves, newRoot)", "return verifyMulti(newProofIndices, treeHashes, newLeafHashes, numLeaves, oldRoot)"})
+	mut("C16", "v4 VerifyAppendSectorsProof skips the old root when there is nothing to append", true, "verifier-guard|v4-append:old-root",
+		Edit{m4, "\tif acc.Root() != oldRoot {\n\t\treturn false\n\t}\n\tfor _, h := range appended {", "\tif len(appended) > 0 && acc.Root() != oldRoot {\n\t\treturn false\n\t}\n\tfor _, h := range appended {"})
+	mut("C16", "v4 VerifySectorRootsProof swaps start and numSectors", true, "forwarding|rhp/v4.VerifySectorRootsProof",
+		Edit{m4, "rhp2.VerifySectorRangeProof(proof, sectorRoots, start, end, numSectors, root)", "rhp2.VerifySectorRangeProof(proof, sectorRoots, numSectors, end, start, root)"})
+	mut("C16", "v4 VerifyLeafProof verifies against the leaf index itself as range end", true, "forwarding|rhp/v4.VerifyLeafProof",
+		Edit{m4, "leafIndex, leafIndex+1, LeavesPerSector, root)", "leafIndex, leafIndex+2, LeavesPerSector, root)"})
+	mut("C16", "v4 BuildFreeSectorsProof converts actions with one fewer sector", true, "forwarding|rhp/v4.BuildFreeSectorsProof",
+		Edit{m4, "convertFreeActions(freed, uint64(len(sectorRoots))), sectorRoots)", "convertFreeActions(freed, uint64(len(sectorRoots))-1), sectorRoots)"})
+	mut("C16", "v4 sectorAccumulator.hasNodeAtHeight diverges from the v2 copy", true, "sibling|sectorAccumulator.hasNodeAtHeight",
+		Edit{m4, "return (sa.numLeaves>>2)&(1<<(len(sa.trees)-i-1)) != 0", "return (sa.numLeaves>>2)&(1<<(len(sa.trees)-i)) != 0"})
+	mut("C16", "SumPair hashes with the leaf prefix", true, "hash-variants|SumPair:prefix",
+		Edit{bl, "unsafe.Pointer(&[2][32]byte{left, right})), nodeHashPrefix)", "unsafe.Pointer(&[2][32]byte{left, right})), leafHashPrefix)"})
+	mut("C16", "node prefix equals leaf prefix", true, "hash-variants|prefix-constants",
+		Edit{bl, "const nodeHashPrefix = 1", "const nodeHashPrefix = 0"})
+	mut("C16", "amd64 hashBlocks passes a constant prefix to the AVX2 routine", true, "hash-variants|hashBlocks@amd64",
+		Edit{"blake2b/blake2b_amd64.go", "hashBlocksAVX2(outs, msgs, prefix)", "hashBlocksAVX2(outs, msgs, 0)"})
+	mut("C16", "generic 4-way hashing writes lane i to output 3-i", true, "hash-variants|hashBlocksGeneric:lanes",
+		Edit{bl, "outs[i] = hashBlockGeneric(&msgs[i], prefix)", "outs[len(msgs)-1-i] = hashBlockGeneric(&msgs[i], prefix)"})
+	mut("C16", "appendLeaves advances by one leaf while hashing four", true, "unsafe-cast|rhp/v2:(*sectorAccumulator).appendLeaves",
+		Edit{m2, "for i := 0; i < len(leaves)-rem; i += LeafSize * 4 {", "for i := 0; i < len(leaves)-rem; i += LeafSize {"})
+	mut("C16", "ReaderRoot reads batches of six leaves", true, "chunk-discipline|rhp/v2.ReaderRoot",
+		Edit{m2, "leafBatch := make([]byte, LeafSize*16)", "leafBatch := make([]byte, LeafSize*6)"})
+	mut("C16", "ReaderRoot uses a single Read per batch", true, "chunk-discipline|rhp/v2.ReaderRoot",
+		Edit{m2, "\t\tn, err := io.ReadFull(r, leafBatch)\n\t\tif err == io.EOF {\n\t\t\tbreak", "\t\tn, err := r.Read(leafBatch)\n\t\tif err == io.EOF {\n\t\t\tbreak"})
+	mut("C16", "(benign) ReaderRoot reads batches of 32 leaves", false, "",
+		Edit{m2, "leafBatch := make([]byte, LeafSize*16)", "leafBatch := make([]byte, LeafSize*32)"})
+	mut("C16", "(benign) v4 appendNode with renamed receiver and comment", false, "",
+		Edit{m4, "func (sa *sectorAccumulator) appendNode(h types.Hash256) {\n\tsa.nodeBuf[sa.numLeaves%4] = h\n\tsa.numLeaves++\n\tif sa.numLeaves%4 == 0 {\n\t\tsa.numLeaves -= 4 // hack: offset mergeNodeBuf adding 4\n\t\tsa.mergeNodeBuf()", "func (acc *sectorAccumulator) appendNode(node types.Hash256) {\n\tacc.nodeBuf[acc.numLeaves%4] = node\n\tacc.numLeaves++\n\t// buffer full\n\tif acc.numLeaves%4 == 0 {\n\t\tacc.numLeaves -= 4\n\t\tacc.mergeNodeBuf()"})
+	mut("C16", "(benign) VerifyAppendProof compares the new root through a local", false, "",
+		Edit{m2, "\tacc.insertNode(sectorRoot, 0)\n\treturn acc.root() == newRoot", "\tacc.insertNode(sectorRoot, 0)\n\tgot := acc.root()\n\tif got != newRoot {\n\t\treturn false\n\t}\n\treturn true"})
+}
